@@ -42,6 +42,26 @@ def make_A():
     return World(spec)
 
 
+def make_T():
+    """model A plus a second population type (one population, listed last) that has none of A's quantities"""
+    spec = simspace.combined_spec(0.25, v=0.3, dur=1.0, tj=0.2, pa=0.3, d=0.01, br=5.0, prog=True)
+    spec["progs"]["instr"] = dict(start=2001.0, alloc={"P1": 1000.0, "P2": 400.0})
+    spec["ptypes"] = ["ta", "tb"]
+    for it in spec["comps"] + spec["characs"] + spec["pars"] + spec.get("transfers", []):
+        it["ptype"] = "ta"
+    pops = list(spec.get("pops") or ["pa"])
+    spec["pops"] = pops + ["pz"]
+    spec["pop_types"] = dict({p: "ta" for p in pops}, pz="tb")
+    spec["comps"] += [dict(name="x", kind="ord", init=7.0, ptype="tb"), dict(name="y", kind="ord", init=3.0, ptype="tb")]
+    spec["pars"].append(dict(name="rxy", fmt="rate", val=0.5, ptype="tb"))
+    spec["links"].append(["x", "y", "rxy"])
+    return World(spec)
+
+
+def make_world(cfg):
+    return make_T() if cfg.get("world") == "types" else make_A()
+
+
 def make_B():
     spec = c06.model("agg", 0.25, "three", 0.5, 1.5, "none", False, None)
     spec["comps"][0]["init"] = {"pa": {"t": [2000.0, 2002.0], "v": [100.0, 70.0]}, "pb": {"t": [2000.0, 2002.0], "v": [40.0, 60.0]}}
@@ -57,6 +77,7 @@ OPT_CONFIGS = [
     dict(name="one_adjustable", meas=("max", "vac", [2001, 2004], None), adj=1, tsc=False),
     dict(name="minmoney_atleast", meas=("min", "P1", [2001, 2004], None), adj=2, tsc=False, hard=("atleast", "vac", [2003], 1.0)),
     dict(name="max_atmost", meas=("max", "vac", [2001, 2004], None), adj=2, tsc=True, hard=("atmost", "sus", [2003], 1e6)),
+    dict(name="max_two_population_types", meas=("max", "vac", [2001, 2004], None), adj=2, tsc=True, world="types"),
     dict(name="minmoney_increaseby", meas=("min", "P1", [2001, 2004], None), adj=2, tsc=False, hard=("increaseby", "vac", [2003], 0.0)),  # "must not fall below its value under the original instructions"
 ]
 
@@ -91,7 +112,11 @@ def harness_objective(cfg, r):
         for pop in m.pops:
             if pops and pop.name not in pops:
                 continue
-            for var in pop.get_variable(name):
+            try:
+                found = pop.get_variable(name)
+            except at.NotFoundError:
+                continue  # a population (of another type) that does not have the quantity contributes nothing
+            for var in found:
                 v = np.asarray(var.vals, dtype=float)[filt]
                 val += float(np.sum(v / m.dt)) if isinstance(var, at.model.Link) else float(np.sum(v))
     return -val if kind == "max" else val
@@ -104,11 +129,11 @@ def hard_ok(cfg, r, r_start=None):
     if hk == "increaseby":
         if r_start is None:
             return True
-        f = lambda rr: sum(float(np.sum(np.asarray(var.vals)[rr.model.t == ht[0]])) for pop in rr.model.pops for var in pop.get_variable(hn))
+        f = lambda rr: sum(float(np.sum(np.asarray(var.vals)[rr.model.t == ht[0]])) for pop in rr.model.pops if hn in [c.name for c in pop.comps + pop.characs + pop.pars] for var in pop.get_variable(hn))
         return f(r) >= f(r_start) * (1 + thr) * (1 - 1e-9)
     tt = r.model.t
     filt = tt == ht[0]
-    val = sum(float(np.sum(np.asarray(var.vals)[filt])) for pop in r.model.pops for var in pop.get_variable(hn))
+    val = sum(float(np.sum(np.asarray(var.vals)[filt])) for pop in r.model.pops if hn in [c.name for c in pop.comps + pop.characs + pop.pars] for var in pop.get_variable(hn))
     return val >= thr if hk == "atleast" else val <= thr
 
 
@@ -131,6 +156,7 @@ def cases(tier):
     yield dict(kind="cal_paths", adjustables=["p1"], maxiters=1, start_outside_limits=True)
     for cfg in OPT_CONFIGS:
         yield dict(kind="opt_reuse", cfg=cfg["name"], maxiters=2)
+        yield dict(kind="opt_multistart", cfg=cfg["name"], maxiters=2)
     for target in ("calibrate", "optimize", "run_optimization", "reconcile"):
         for mi in (1, 2) if tier == "quick" else (1, 2, 3, 5):
             yield dict(kind="crash", target=target, maxiters=mi)
@@ -138,7 +164,7 @@ def cases(tier):
 
 def run_opt_paths(case):
     cfg = next(c for c in OPT_CONFIGS if c["name"] == case["cfg"])
-    w = make_A()
+    w = make_world(cfg)
     vs = []
     objs = dict(parset=w.parset, progset=w.progset, instr=w.instr, settings=w.P.settings)
     h0 = {k: snap_hash(v) for k, v in objs.items()}
@@ -298,7 +324,7 @@ def run_opt_reuse(case):
     vs = []
     n = 0
     for path in ([], [1], [2, 1]):
-        w1, w2 = make_A(), make_A()
+        w1, w2 = make_world(cfg), make_world(cfg)
         w2.parset.pars["vr"].y_factor["pa1"] = 0.4  # a different problem: other calibration, other baseline values
         w2.parset.pars["dr"].meta_y_factor = 3.0
         reused = build_opt(cfg, case["maxiters"])
@@ -319,6 +345,42 @@ def run_opt_reuse(case):
             vs.append(V("optimization-object-keeps-state", f"optimize[{cfg['name']}] ASD path {path}: an Optimization object already used for another problem returns {xa}, a fresh one {xb}", dict(path=path)))
             break
     return dict(states=n, transitions=n, nontrivial=n > 0, violations=vs, counters=dict(reuse_pairs=n))
+
+
+def run_opt_multistart(case):
+    """the multi-start sequence of optimize()'s documentation: get_initialization, choose another starting point, get_hard_constraints for it
+    with the caller's own instructions, optimize(..., x0, xmin, xmax, hard_constraints).  The caller's objects stay as they are at every step."""
+    cfg = next(c for c in OPT_CONFIGS if c["name"] == case["cfg"])
+    vs = []
+    n = 0
+    for scale in (0.5, 1.0, 1.7):
+        for path in ([], [1], [2, 1]):
+            w = make_world(cfg)
+            objs = dict(parset=w.parset, progset=w.progset, instr=w.instr, settings=w.P.settings)
+            h0 = {k: snap_hash(v) for k, v in objs.items()}
+            s0 = {k: snap(v) for k, v in objs.items()}
+            opt = build_opt(cfg, case["maxiters"])
+            steps = []
+            try:
+                x0, xmin, xmax = opt.get_initialization(w.progset, w.instr)
+                steps.append("get_initialization")
+                x1 = np.clip(np.asarray(x0, dtype=float) * scale, xmin, xmax)
+                hard = opt.get_hard_constraints(x1, w.instr)
+                steps.append("get_hard_constraints")
+                with scripted(path):
+                    at.optimize(w.P, opt, w.parset, w.progset, w.instr, x0=x1, xmin=xmin, xmax=xmax, hard_constraints=hard)
+                steps.append("optimize")
+            except (InvalidInitialConditions, at.optimization.UnresolvableConstraint):
+                pass
+            n += 1
+            for k, v in objs.items():
+                if snap_hash(v) != h0[k]:
+                    vs.append(V("caller-object-modified", f"multi-start optimize[{cfg['name']}] start x{scale} path {path} (completed steps {steps}): {k} changed: {diff(s0[k], snap(v))[:2]}", dict(obj=k)))
+            if vs:
+                break
+        if vs:
+            break
+    return dict(states=n, transitions=n, nontrivial=n > 0, violations=vs[:3], counters=dict(multistart_sequences=n))
 
 
 class _OptimIns:
@@ -420,4 +482,4 @@ def run_crash(case):
 
 
 def run_case(case):
-    return dict(opt_paths=run_opt_paths, cal_paths=run_cal_paths, crash=run_crash, opt_reuse=run_opt_reuse)[case["kind"]](case)
+    return dict(opt_paths=run_opt_paths, cal_paths=run_cal_paths, crash=run_crash, opt_reuse=run_opt_reuse, opt_multistart=run_opt_multistart)[case["kind"]](case)
